@@ -29,6 +29,12 @@ def cells(tier, seed):
                 for corr in ("moderate", "strong") + (("extreme",) if D > 1 else ()):
                     out.append({"diag": diag, "R": R, "D": D, "corr": corr, "tier": tier,
                                 "group": [R, D], "cost": 1.0})
+    # sizes beyond the ordinary: a dimension where a factorisation routine may switch algorithm,
+    # and more draws than 2^20 (block-wise generation): structural oracle only
+    out.append({"diag": False, "R": 2, "D": 18, "corr": "moderate", "tier": tier, "n": 64,
+                "structure_only": True, "group": [2, 18], "cost": 2.0})
+    out.append({"diag": False, "R": 1, "D": 1, "corr": "moderate", "tier": tier,
+                "n": 2 ** 20 + 4096, "structure_only": True, "group": [1, 1, "many"], "cost": 3.0})
     return out
 
 
@@ -45,7 +51,7 @@ def run_cell(cell, rec, seed):
     rec.cell([diag, R, D, corr], R > 1 or D > 1)
     key = jax.random.PRNGKey(int(rng.integers(0, 2 ** 31)))
     key2 = jax.random.PRNGKey(int(rng.integers(0, 2 ** 31)))
-    n = 64
+    n = int(cell.get("n", 64))
     x = lc.call(rec, "sample", lambda: np.asarray(p.sample(key, n)), info)
     if x is None:
         return
@@ -102,6 +108,8 @@ def run_cell(cell, rec, seed):
             rel = np.linalg.norm(z[:, o, :] @ At2 - res) / (np.linalg.norm(res) + 1e-300)
             rec.true("component uses its own stream", rel > 0.3, mech="sample-wrong-pairing",
                      detail=dict(info, component=r, other=o, rel_residual=float(rel)))
+    if cell.get("structure_only"):
+        return
     # ---- statistics for a fixed key
     N = 200000 if tier == "quick" else 1000000
     xs = lc.call(rec, "sample(big)", lambda: np.asarray(p.sample(key2, N)), info)
